@@ -20,6 +20,7 @@ Inductive err : Set :=
 | EStrTooLong     (* ReadVarString: count above maxMessagePayload *)
 | EBytesTooLong   (* ReadVarBytes: count above the caller's maxAllowed *)
 | ETooMany        (* per-message count limit exceeded ("too many ...") *)
+| EDataTooLarge   (* MsgFilterAdd / MsgFilterLoad BsvEncode: data above the type's size limit *)
 | EHasTx          (* MsgHeaders: header followed by a non-zero tx count *)
 | EUALong         (* MsgVersion: user agent longer than MaxUserAgentLen *)
 | EPverLow        (* message invalid for the protocol version *)
